@@ -2,7 +2,7 @@
    input types. Statements only; proofs are in Proofs/CoerceProofs.v, the
    judgements ([conforms], [spelled]/[natural], [wrong], [wrong_lit], [var_at],
    [usage_ok]) in Spec/CoerceSpec.v, the model in Exec/CoerceModel.v. *)
-From PyGql Require Import Spec.CoerceSpec Proofs.CoerceProofs.
+From PyGql Require Import Spec.CoerceSpec Proofs.CoerceProofs Proofs.CoerceValidBridge.
 From Coq Require Import ZArith.
 
 (* Variable route: whatever coerce_value accepts is a legitimate resolver-side
@@ -94,6 +94,36 @@ Theorem C07_rejects_var : forall s t j,
 Proof. exact wrong_rejected. Qed.
 Print Assumptions C07_rejects_var.
 
+(* ... and what they get instead is a CoercionError, nothing else. The guard of
+   the scalar clause of [wrong] is exactly "foreign kind and not
+   lenient_scalar_case", the decidable complement of the two open findings. *)
+Theorem C07_rejects_var_exact : forall s t j,
+  schema_closed s -> bound s t -> wrong s t j ->
+  exists p, coerce_value s j t = Rejected RK_coercion p.
+Proof. exact wrong_rejected_exact. Qed.
+Print Assumptions C07_rejects_var_exact.
+
+(* Any acceptance of a foreign JSON kind at a scalar position falls under the
+   predicate: a third leniency would contradict this theorem. *)
+Theorem C07_no_other_leniency : forall s nn n k j v,
+  alookup n s = Some (TDScalar k) -> scalar_kind_foreign k j ->
+  coerce_value s j (INamed nn n) = Ok v -> lenient_scalar_case k j = true.
+Proof. exact no_other_leniency. Qed.
+Print Assumptions C07_no_other_leniency.
+
+(* Both open-finding witnesses satisfy the predicate (and are accepted). *)
+Theorem C07_lenient_witnesses :
+  (lenient_scalar_case KInt (JStr (str_of_string "12")) = true
+   /\ scalar_kind_foreign KInt (JStr (str_of_string "12"))
+   /\ coerce_value [(str_of_string "Int", TDScalar KInt)] (JStr (str_of_string "12"))
+                   (INamed false (str_of_string "Int")) = Ok (PInt 12))
+  /\ (lenient_scalar_case KString (JInt 123) = true
+      /\ scalar_kind_foreign KString (JInt 123)
+      /\ coerce_value [(str_of_string "String", TDScalar KString)] (JInt 123)
+                      (INamed false (str_of_string "String")) = Ok (PStr (str_of_string "123"))).
+Proof. exact lenient_witnesses. Qed.
+Print Assumptions C07_lenient_witnesses.
+
 (* C07_rejects_var is _partial in one respect: its "structurally wrong
    scalar" clause ([scalar_kind_mismatch]) leaves out exactly the acceptances
    that py-gql's own tests pin. The full demand (every JSON value of a foreign
@@ -120,6 +150,12 @@ Theorem C07_rejects_lit : forall s vs t l,
 Proof. exact wrong_lit_rejected. Qed.
 Print Assumptions C07_rejects_lit.
 
+Theorem C07_rejects_lit_exact : forall s vs t l,
+  schema_closed s -> schema_inputs s -> usable s t -> wrong_lit s t l ->
+  exists p, value_from_ast s vs l t = Rejected RK_invalid p.
+Proof. exact wrong_lit_rejected_exact. Qed.
+Print Assumptions C07_rejects_lit_exact.
+
 (* Absent optional arguments without default are omitted from the kwargs;
    arguments that are non-null or have a default are always there. *)
 Theorem C07_absent_omitted : forall s defs call vs kw d,
@@ -134,13 +170,95 @@ Theorem C07_required_present : forall s defs call vs kw d,
 Proof. exact cav_required_present. Qed.
 Print Assumptions C07_required_present.
 
-(* coerce_value either returns a value or raises CoercionError -- nothing else,
-   for every JSON value (the model has no fuel: recursion is on the value). *)
+(* The variable route: coerce_value either returns a value or raises
+   CoercionError -- nothing else, for every JSON value (the model has no fuel:
+   recursion is on the value). *)
 Theorem C07_total : forall s j t,
   schema_closed s -> bound s t ->
   match coerce_value s j t with Ok _ => True | Rejected k _ => k = RK_coercion | _ => False end.
 Proof. intros s j t Hc Hb. exact (cv_total s Hc j t Hb). Qed.
 Print Assumptions C07_total.
+
+(* The literal route, for every literal, type and variable map: a value or
+   InvalidValue, never another exception ... *)
+Theorem C07_total_lit : forall s vs l t,
+  schema_closed s -> schema_inputs s -> usable s t ->
+  match value_from_ast s vs l t with Ok _ => True | Rejected k _ => k = RK_invalid | _ => False end.
+Proof. intros s vs l t Hc Hi Hu. exact (vfa_total s Hc Hi vs l t Hu). Qed.
+Print Assumptions C07_total_lit.
+
+(* ... coerce_argument_values: the kwargs or CoercionError ... *)
+Theorem C07_total_args : forall s vs call defs,
+  schema_closed s -> schema_inputs s -> (forall d, In d defs -> usable s (f_ty d)) ->
+  match coerce_argument_values s defs call vs with
+  | Ok _ => True | Rejected k _ => k = RK_coercion | _ => False end.
+Proof. intros s vs call defs Hc Hi Hd. exact (cav_total s Hc Hi vs call defs Hd). Qed.
+Print Assumptions C07_total_args.
+
+(* ... coerce_variable_values: the variables or VariablesCoercionError, whatever
+   the variable definitions and raw values ... *)
+Theorem C07_total_vars : forall s vds raw,
+  schema_closed s -> schema_inputs s ->
+  match coerce_variable_values s vds raw with
+  | Ok _ => True | Rejected k _ => k = RK_variables | _ => False end.
+Proof. exact cvv_total. Qed.
+Print Assumptions C07_total_vars.
+
+(* ... hence a request either hands kwargs to the resolver or is rejected with
+   one of the two documented errors before any resolver runs. *)
+Theorem C07_total_request : forall s defs vds call raw,
+  schema_closed s -> schema_inputs s -> (forall d, In d defs -> usable s (f_ty d)) ->
+  match exec_kwargs s defs vds call raw with
+  | Ok _ => True
+  | Rejected k _ => k = RK_variables \/ k = RK_coercion
+  | _ => False
+  end.
+Proof. exact exec_total. Qed.
+Print Assumptions C07_total_request.
+
+(* Directive arguments (@skip / @include in _skip_selection, custom directives
+   through ResolveInfo.get_directive_arguments and schema directives) are the
+   same coerce_argument_values on the directive node: the corollaries. *)
+Theorem C07_directive_args_sound : forall s defs dname ds vs kw,
+  schema_wf s -> args_wf s defs ->
+  (forall d, find_directive dname ds = Some d -> call_vars_fit s vs defs (d_args d)) ->
+  directive_arguments s defs dname ds vs = Ok (Some kw) ->
+  NoDup (map fst kw)
+  /\ (forall k v, In (k, v) kw -> exists a, In a defs /\ f_py a = k /\ conforms s (f_ty a) v)
+  /\ (forall a, In a defs -> f_default a <> None \/ ity_nn (f_ty a) = true -> In (f_py a) (map fst kw)).
+Proof. exact directive_args_sound. Qed.
+Print Assumptions C07_directive_args_sound.
+
+Theorem C07_directive_args_total : forall s defs dname ds vs,
+  schema_closed s -> schema_inputs s -> (forall d, In d defs -> usable s (f_ty d)) ->
+  match directive_arguments s defs dname ds vs with
+  | Ok _ => True | Rejected k _ => k = RK_coercion | _ => False end.
+Proof. exact directive_args_total. Qed.
+Print Assumptions C07_directive_args_total.
+
+Theorem C07_skip_if_is_boolean : forall s dname ds vs kw,
+  schema_wf s -> alookup (str_of_string "Boolean") s = Some (TDScalar KBoolean) ->
+  (forall d, find_directive dname ds = Some d -> call_vars_fit s vs [if_arg] (d_args d)) ->
+  directive_arguments s [if_arg] dname ds vs = Ok (Some kw) ->
+  exists b, alookup str_if kw = Some (PBool b).
+Proof. exact skip_if_is_boolean. Qed.
+Print Assumptions C07_skip_if_is_boolean.
+
+(* Where the hypothesis usage_ok of C07_exec_sound comes from: the per-usage
+   test of VariablesInAllowedPosition as modelled for C05/C06
+   (Valid/ValidRules.v bad_position over Schema.is_subtype) implies the
+   per-usage premise of usage_ok. (The enumeration of usages over a document
+   and the translation between the two schema representations are not bridged.) *)
+Theorem C07_usage_from_rule24 :
+  forall (s : PyGql.Valid.ValidSchema.schema) (vd : var_def) (u : PyGql.Valid.ValidRules.usage) it vt,
+  PyGql.Valid.ValidRules.u_type u = Some it ->
+  PyGql.Valid.ValidSchema.type_from_ast s (vd_type vd) = Some vt ->
+  wf_tref it = true -> wf_tref vt = true ->
+  PyGql.Valid.ValidSchema.is_abstract s (PyGql.Valid.ValidSchema.unwrap it) = false ->
+  PyGql.Valid.ValidRules.bad_position s vd u = false ->
+  sub (ity_nullable (ity_of_ty (vd_type vd))) (ity_nullable (ity_of_tref it)).
+Proof. exact rule24_gives_usage. Qed.
+Print Assumptions C07_usage_from_rule24.
 
 (* ---- non-vacuity: a recursive input type with defaults ---- *)
 Local Open Scope string_scope.
